@@ -1,18 +1,214 @@
 /-
-  Property C18 — PLACEHOLDER while the full theorem file is being written and proved.
+  Property C18 — remote token deployments announce the registered token's true id and metadata.
+  Statements are FIXED: prove them exactly as stated (helper lemmas go above them or in Cgp/Proofs/C18.lean).
 -/
-import Cgp.Its
+import Cgp.ItsOps
 namespace Cgp.Props.C18
 open Cgp Cgp.Xdr Cgp.Its
 
-/-- owner-only trusted-chain changes never touch balances, registry or approvals (frame clause shared by the ITS properties) -/
-theorem setTrusted_frame (st st' : State) (auths : List Addr) (c : Bytes) (evs : List Event)
-    (h : setTrustedChain st auths c = .ok (st', evs)) :
-    st.owner ∈ auths ∧ st'.tokens = st.tokens ∧ st'.registry = st.registry ∧ st'.gw = st.gw := by
-  unfold setTrustedChain at h
-  split at h <;> try simp at h
-  split at h <;> try simp at h
-  obtain ⟨rfl, _⟩ := h
-  simp_all
+variable (H : Bytes → Bytes) (S : Bytes → Bytes) (k : Consts)
+
+/-- the deploy message announced for token `t` registered under `tid` -/
+def announcedMsg (tid : Bytes) (t : Tok) : Abi.Msg := .deploy ⟨tid, t.name, t.symbol, t.decimals % 256, none⟩
+
+
+theorem payGasAndCall_inv (st st' : State) (spender : Addr) (spenderAuth : Bool) (dest : Bytes) (msg : Abi.Msg)
+    (gasToken : Addr) (gasAmount : Int) (evs : List Event)
+    (h : payGasAndCall H k st spender spenderAuth dest msg gasToken gasAmount = .ok (st', evs)) :
+    st.trusted dest = true ∧ spenderAuth = true ∧ 0 < gasAmount ∧
+    ∃ payload, Abi.encodeHub (.sendToHub dest msg) = .ok payload ∧
+      evs = [evGasPaid H k st payload spender gasToken gasAmount, evContractCalled H k st payload] ∧
+      tokTransfer st gasToken spender st.gasService gasAmount true = .ok st' := by
+  unfold payGasAndCall at h
+  split at h
+  · cases h
+  · rename_i htr
+    split at h
+    · cases h
+    · cases h
+    · rename_i payload hpay
+      split at h
+      · cases h
+      · rename_i hau
+        split at h
+        · cases h
+        · rename_i hga
+          split at h
+          · cases h
+          · rename_i st1 htt
+            simp only [Except.ok.injEq, Prod.mk.injEq] at h
+            obtain ⟨rfl, rfl⟩ := h
+            refine ⟨by simpa using htr, by simpa using hau, by omega, payload, hpay, rfl, htt⟩
+
+theorem tokTransfer_inv (st st' : State) (token src dst : Addr) (amount : Int)
+    (h : tokTransfer st token src dst amount true = .ok st') :
+    ∃ t, st.tokens token = some t ∧
+      st' = setTok st token { t with bal := fun a => if a = dst then (if dst = src then t.bal src - amount else t.bal dst) + amount
+                                                      else if a = src then t.bal src - amount else t.bal a } := by
+  unfold tokTransfer at h
+  split at h
+  · cases h
+  · rename_i t ht
+    split at h
+    · cases h
+    · simp only at h
+      by_cases hc : (if dst = src then t.bal src - amount else t.bal dst) + amount > i128Max
+      · rw [if_pos hc] at h; cases h
+      · rw [if_neg hc] at h
+        simp only [Except.ok.injEq] at h
+        exact ⟨t, ht, h.symm⟩
+
+theorem wrapEv_err (st : State) (r : Except Err (State × List Event)) (e : Err) (h : (wrapEv st r).2 = .err e) :
+    (wrapEv st r).1 = st := by
+  unfold wrapEv at h ⊢
+  split
+  · simp only [] at h; cases h
+  · rfl
+
+theorem wrapId_err (st : State) (r : Except Err (State × Bytes × List Event)) (e : Err) (h : (wrapId st r).2 = .err e) :
+    (wrapId st r).1 = st := by
+  unfold wrapId at h ⊢
+  split
+  · simp only [] at h; cases h
+  · rfl
+
+/-- what a remote deployment of the token registered under the id derived from `salt'` needs, and what it does -/
+theorem deployRemoteToken_exact (st st' : State) (spender : Addr) (spenderAuth : Bool) (salt' dest : Bytes)
+    (gasToken : Addr) (gasAmount : Int) (tid : Bytes) (evs : List Event)
+    (h : deployRemoteToken H k st spender spenderAuth salt' dest gasToken gasAmount = .ok (st', tid, evs)) :
+    tid = tokenIdOf H k zeroAddr salt' ∧
+    ∃ addr mgr t payload,
+      st.registry tid = some (addr, mgr) ∧ st.tokens addr = some t ∧
+      validMetadata t.name t.symbol t.decimals = true ∧
+      st.trusted dest = true ∧ spenderAuth = true ∧ 0 < gasAmount ∧
+      Abi.encodeHub (.sendToHub dest (announcedMsg tid t)) = .ok payload ∧
+      evs = [evDeploymentStarted st tid addr dest t.name t.symbol t.decimals,
+             evGasPaid H k st payload spender gasToken gasAmount, evContractCalled H k st payload] ∧
+      tokTransfer st gasToken spender st.gasService gasAmount true = .ok st' := by
+  unfold deployRemoteToken at h
+  simp only at h
+  split at h
+  · cases h
+  · rename_i addr mgr hreg
+    split at h
+    · cases h
+    · rename_i t htok
+      split at h
+      · cases h
+      · rename_i hvm
+        split at h
+        · cases h
+        · rename_i st1 evs1 hp
+          simp only [Except.ok.injEq, Prod.mk.injEq] at h
+          obtain ⟨rfl, rfl, rfl⟩ := h
+          obtain ⟨h1, h2, h3, payload, h4, rfl, h6⟩ := payGasAndCall_inv H k _ _ _ _ _ _ _ _ _ hp
+          exact ⟨rfl, addr, mgr, t, payload, hreg, htok, by simpa using hvm, h1, h2, h3, h4, rfl, h6⟩
+
+/-- interchain form: only with the caller's authorisation, only for the id derived from the CALLER'S OWN (deployer, salt) pair -/
+theorem remote_interchain_needs (st st' : State) (auths : List Addr) (caller : Addr) (salt dest : Bytes) (gasToken : Addr)
+    (gasAmount : Int) (tid : Bytes) (evs : List Event)
+    (h : deployRemoteInterchainToken H k st auths caller salt dest gasToken gasAmount = .ok (st', tid, evs)) :
+    caller ∈ auths ∧ tid = interchainTokenId H k st.chainName caller salt ∧ (st.registry tid).isSome = true ∧
+    st.trusted dest = true ∧ 0 < gasAmount := by
+  unfold deployRemoteInterchainToken at h
+  split at h
+  · cases h
+  · rename_i hc
+    obtain ⟨rfl, addr, mgr, t, payload, hreg, -, -, htr, -, hg, -⟩ := deployRemoteToken_exact H k _ _ _ _ _ _ _ _ _ _ h
+    refine ⟨by simpa using hc, rfl, ?_, htr, hg⟩
+    rw [hreg]; rfl
+
+/-- canonical form: the id is derived from the token address; the payer authorises through the gas payment -/
+theorem remote_canonical_needs (st st' : State) (auths : List Addr) (token : Addr) (dest : Bytes) (spender gasToken : Addr)
+    (gasAmount : Int) (tid : Bytes) (evs : List Event)
+    (h : deployRemoteCanonicalToken H k st auths token dest spender gasToken gasAmount = .ok (st', tid, evs)) :
+    spender ∈ auths ∧ tid = canonicalTokenId H k st.chainName token ∧ (st.registry tid).isSome = true ∧
+    st.trusted dest = true ∧ 0 < gasAmount := by
+  unfold deployRemoteCanonicalToken at h
+  obtain ⟨rfl, addr, mgr, t, payload, hreg, -, -, htr, hau, hg, -⟩ := deployRemoteToken_exact H k _ _ _ _ _ _ _ _ _ _ h
+  refine ⟨by simpa using hau, rfl, ?_, htr, hg⟩
+  rw [hreg]; rfl
+
+/-- it moves no funds other than the gas payment and changes nothing else -/
+theorem remote_deploy_moves_only_gas (st st' : State) (spender : Addr) (spenderAuth : Bool) (salt' dest : Bytes)
+    (gasToken : Addr) (gasAmount : Int) (tid : Bytes) (evs : List Event)
+    (h : deployRemoteToken H k st spender spenderAuth salt' dest gasToken gasAmount = .ok (st', tid, evs)) :
+    st'.registry = st.registry ∧ st'.trusted = st.trusted ∧ st'.gw = st.gw ∧ st'.owner = st.owner ∧
+    (∀ tk, tk ≠ gasToken → st'.tokens tk = st.tokens tk) ∧
+    (∀ h', h' ≠ spender → h' ≠ st.gasService → balOf st' gasToken h' = balOf st gasToken h') ∧
+    (spender ≠ st.gasService → balOf st' gasToken spender = balOf st gasToken spender - gasAmount ∧
+                               balOf st' gasToken st.gasService = balOf st gasToken st.gasService + gasAmount) := by
+  obtain ⟨-, addr, mgr, t, payload, -, -, -, -, -, -, -, -, htt⟩ := deployRemoteToken_exact H k _ _ _ _ _ _ _ _ _ _ h
+  obtain ⟨tk, htk, rfl⟩ := tokTransfer_inv _ _ _ _ _ _ htt
+  refine ⟨rfl, rfl, rfl, rfl, ?_, ?_, ?_⟩
+  · intro x hx
+    simp [setTok, hx]
+  · intro h' h1 h2
+    simp [balOf, setTok, htk, h1, h2]
+  · intro hne
+    have hne' : ¬ st.gasService = spender := fun e => hne e.symm
+    constructor
+    · simp [balOf, setTok, htk, hne]
+    · simp [balOf, setTok, htk, hne']
+
+/-- tokens whose metadata cannot be represented are refused: empty name, empty symbol, more than 255 decimals -/
+theorem unrepresentable_metadata_refused (st : State) (spender : Addr) (spenderAuth : Bool) (salt' dest : Bytes)
+    (gasToken : Addr) (gasAmount : Int) (addr : Addr) (mgr : Manager) (t : Tok)
+    (hreg : st.registry (tokenIdOf H k zeroAddr salt') = some (addr, mgr)) (htok : st.tokens addr = some t)
+    (hbad : t.name = [] ∨ t.symbol = [] ∨ 255 < t.decimals) :
+    ∃ e, deployRemoteToken H k st spender spenderAuth salt' dest gasToken gasAmount = .error e := by
+  have hvm : validMetadata t.name t.symbol t.decimals = false := by
+    unfold validMetadata
+    rcases hbad with hb | hb | hb
+    · simp [hb]
+    · simp [hb]
+    · simp; intro h; omega
+  unfold deployRemoteToken
+  simp only [hreg, htok, hvm]
+  exact ⟨_, rfl⟩
+
+/-- unregistered id, untrusted destination, non-positive gas: refused -/
+theorem remote_deploy_refusals (st : State) (spender : Addr) (spenderAuth : Bool) (salt' dest : Bytes)
+    (gasToken : Addr) (gasAmount : Int) :
+    (st.registry (tokenIdOf H k zeroAddr salt') = none → ∃ e, deployRemoteToken H k st spender spenderAuth salt' dest gasToken gasAmount = .error e) ∧
+    (st.trusted dest = false → ∃ e, deployRemoteToken H k st spender spenderAuth salt' dest gasToken gasAmount = .error e) ∧
+    (gasAmount ≤ 0 → ∃ e, deployRemoteToken H k st spender spenderAuth salt' dest gasToken gasAmount = .error e) ∧
+    (spenderAuth = false → ∃ e, deployRemoteToken H k st spender spenderAuth salt' dest gasToken gasAmount = .error e) := by
+  refine ⟨?_, ?_, ?_, ?_⟩ <;> intro hh <;>
+    cases hr : deployRemoteToken H k st spender spenderAuth salt' dest gasToken gasAmount with
+    | error e => exact ⟨e, rfl⟩
+    | ok r =>
+      obtain ⟨st', tid, evs⟩ := r
+      obtain ⟨rfl, addr, mgr, t, payload, hreg, -, -, htr, hau, hg, -⟩ := deployRemoteToken_exact H k _ _ _ _ _ _ _ _ _ _ hr
+      first
+        | (rw [hh] at hreg; cases hreg)
+        | (rw [hh] at htr; cases htr)
+        | (rw [hh] at hau; cases hau)
+        | omega
+
+/-- a refused request changes nothing -/
+theorem remote_deploy_rejected_unchanged (st : State) (op : Op) (e : Err) (h : (step H S k st op).2 = .err e) :
+    (step H S k st op).1 = st := by
+  cases op <;> simp only [step] at h ⊢
+  case gateway f => cases h
+  case userTransfer t s d a au =>
+    split at h
+    · rename_i hc; simp only [hc, if_true]
+    · rename_i hc
+      simp only [hc, if_false]
+      split at h
+      · cases h
+      · rfl
+  case minterMint t m d a au =>
+    split at h
+    · rename_i tk htk
+      split at h
+      · rename_i hc; rw [if_pos hc]
+      · cases h
+    · rfl
+  all_goals
+    first
+      | exact wrapEv_err _ _ _ h
+      | exact wrapId_err _ _ _ h
 
 end Cgp.Props.C18
